@@ -206,19 +206,53 @@ def r6_containment(run, F):
     run.require(len(ms) == 1, "found_container: the match over ValueType was not found (%d candidates)" % len(ms))
 
     def is_trav(c):
-        return c in (AN + "found_container", AN + "found_container_1")
-    exceptions = {
-        "ValueType::Pointer.deref_type": "a pointer member does not embed its pointee (indirection is how recursive structures are written)",
-        "ValueType::View.deref_type": "a view is passed by reference; it does not embed the viewed value",
-    }
+        return c in (AN + "found_container", AN + "found_container_1", AN + "found_named_lengths")
+    # no exceptions: a pointer or view does not embed its target, but a named length inside the target's type still has to
+    # be resolved before the container is (`struct A { p: &[N]i32 }` before `const N` was E433), so the target is walked by
+    # found_named_lengths (checked below)
+    exceptions = {}
 
     def rep(key, ok, where, detail, sample):
         run.ob("R6-CONTAINMENT-VISITS", key, ok, where,
                detail + ": a structure or constant embedded through it is missing from the containment relation "
                "(no E413/E415/E416 for a cycle through it; the depth sort may place the container first)", sample)
-    rel = {"alpha::value_type::ValueType", "alpha::common::Identifier"}
+    rel = rel0 = {"alpha::value_type::ValueType", "alpha::common::Identifier"}
     n = visit.check_match(F, C, fc, ms[0], vt, "ValueType", rel, is_trav, rep, exceptions, subst={"I": "alpha::common::Identifier"})
     run.require(n >= 12, "too few containment obligations (%d)" % n)
+    # behind a pointer or view: named lengths are dependencies, structures are not (recursive structures are written that way)
+    if F.has_body(AN + "found_named_lengths"):
+        fl = F.body(AN + "found_named_lengths")
+        ml = [m for m in hirq.matches(fl["hir"]) if len(m["arms"]) >= 8]
+        run.require(len(ml) == 1, "found_named_lengths: the match over ValueType was not found (%d candidates)" % len(ml))
+        behind = {
+            "ValueType::Struct.identifier": "a structure behind a pointer is not embedded; recursive structures are written through pointers",
+            "ValueType::Word.identifier": "a word behind a pointer is not embedded",
+            "ValueType::UnresolvedStructOrWord.identifier": "a structure or word behind a pointer is not embedded",
+        }
+
+        def rep1(key, ok, where, detail, sample):
+            run.ob("R6-CONTAINMENT-VISITS", "behind pointer|" + key, ok, where,
+                   detail + ": a named length in the target of a pointer or view is missing from the ordering relation (E433 when the container comes first)", sample)
+        visit.check_match(F, C, fl, ml[0], vt, "ValueType", rel0, lambda c: c in (AN + "found_named_lengths", AN + "found_container_1"), rep1, behind,
+                          subst={"I": "alpha::common::Identifier"})
+    # E416 names a constant: it must be one that is part of the cycle, i.e. one that itself contains the container
+    f1 = F.body(AN + "found_container_1")
+    tested = False
+    for b in [f1] + [x for x in C.bodies.values() if x["npath"].startswith(AN + "found_container_1::{closure") and "hir" in x]:
+        for x in walk(b["hir"]):
+            if x.get("k") == "MethodCall" and x.get("name") == "contains":
+                r = hirq.unwrap_trivial(x["recv"])
+                a = hirq.unwrap_trivial(x["a"][0]) if x.get("a") else {}
+                while a.get("k") == "AddrOf":
+                    a = hirq.unwrap_trivial(a["e"])
+                if r.get("k") == "Field" and r.get("name") == "contained_ids" and a.get("k") == "Path" and a.get("res") == "container_id":
+                    base = hirq.unwrap_trivial(r.get("e") or r.get("base") or {})
+                    if base.get("k") == "Path" and base.get("res") not in ("container", "other"):
+                        tested = True
+    run.ob("R6-CONTAINMENT-VISITS", "E416 constant is in the cycle", tested, F.where(f1),
+           "the constant named by E416 (CyclicalStructureWithConstant) must be tested for containing the container (x.contained_ids.contains(&container_id)); "
+           "picking any constant among the container's containees makes the code depend on declaration order (`const N; struct Foo { bar: Bar, buf: [N]u8 } "
+           "struct Bar { foo: Foo }` was E416, with Bar first E415)")
     # callers: constant types, member types, and names used in a constant's initialiser
     mw = F.body(VR + "{Member}::analyze_wellfoundedness")
     cs = [c for c in hirq.calls(mw["hir"]) if hirq.callee(c) == AN + "found_container"]
